@@ -858,6 +858,7 @@ def _prime(st, c):
     used("spec function prime(c): the c-th prime (0-based), only known to be > 1")
     t = _PRIME(to_z3(c))
     st.fact(t > 1)
+    st.fact(_PRIME(z3.IntVal(0)) == 2)      # the first prime
     return t
 
 
